@@ -161,7 +161,7 @@ class Path:
         return self.check(z3.Not(to_bool(f))) == z3.unsat
 
     # -- choices ---------------------------------------------------------------------------------
-    def branch(self, cond):
+    def branch(self, cond, generic=True):
         """Python-level bool for a symbolic condition; forks the exploration."""
         if isinstance(cond, bool):
             return cond
@@ -170,6 +170,10 @@ class Path:
             return True
         if z3.is_false(cond):
             return False
+        gen = None
+        gh = self.ghost.get("generic_branch_hook")
+        if gh is not None and generic:
+            gen = gh(self, cond)
         if self.pos < len(self.prefix):
             d = self.prefix[self.pos]
         else:
@@ -187,6 +191,12 @@ class Path:
         self.pos += 1
         self.decisions.append(d)
         self._add(cond if d else z3.Not(cond))
+        if gen is not None:
+            # element-dependent branch inside a generic loop iteration (pyvc/loops.py)
+            if d:
+                gen.exists = True
+            else:
+                gen.forall.append(z3.Not(cond))
         return d
 
     def choose(self, conds):
@@ -196,7 +206,8 @@ class Path:
                 return i
         last = conds[-1]
         if not is_true(last):
-            if not self.branch(last):
+            # the last guard is the complement of the others (cases are exhaustive): no new reading
+            if not self.branch(last, generic=False):
                 raise Infeasible()
         return len(conds) - 1
 
